@@ -180,6 +180,28 @@ pub fn cmd_run(args: &[String]) -> i32 {
             }
         }
     }
+    // boundary inputs: two 16-byte keys whose raw Murmur3 hash is exactly Long.MIN_VALUE (derived by inverting the
+    // final mix; the token must be Long.MAX_VALUE), and CDC stream ids whose first 8 bytes are MIN / MIN+1 / MAX
+    for key in [
+        vec![9u8, 156, 237, 212, 130, 172, 242, 249, 233, 127, 211, 68, 44, 233, 138, 38],
+        vec![166u8, 181, 7, 33, 235, 186, 240, 14, 126, 250, 248, 129, 3, 72, 9, 150],
+    ] {
+        hash_case(key.clone(), &mut rng, &mut out, &mut chunkruns, &mut panics);
+        let r = std::panic::catch_unwind(|| pk_case(1, &[0], &[key.clone()], false));
+        if let Ok(v) = r {
+            writeln!(out, "{}", v).unwrap();
+        }
+        n += 2;
+    }
+    for first in [[0x80u8, 0, 0, 0, 0, 0, 0, 0], [0x80, 0, 0, 0, 0, 0, 0, 1], [0x7f, 0xff, 0xff, 0xff, 0xff, 0xff, 0xff, 0xff]] {
+        let mut key = first.to_vec();
+        key.extend_from_slice(&[1, 2, 3, 4, 5, 6, 7, 8]);
+        let r = std::panic::catch_unwind(|| pk_case(2, &[1], &[vec![9], key.clone()], true));
+        if let Ok(v) = r {
+            writeln!(out, "{}", v).unwrap();
+        }
+        n += 1;
+    }
     for _ in 0..nrh {
         let len = match rng.random_range(0..3) {
             0 => rng.random_range(0..71),
